@@ -1171,6 +1171,16 @@ func (t *Topic) handlePubBroadcast(msg *ClientComMessage) {
 			msg.sess.queueOut(ErrCallBusyReply(msg, types.TimeNow()))
 			return
 		}
+		origin := msg.sess
+		if origin.multi != nil {
+			origin = origin.multi
+		}
+		if _, attached := t.sessions[origin]; !attached {
+			// The caller's session has left the topic after sending the invitation (its {leave} was
+			// handled first). A call started now would have no caller whose departure could end it.
+			msg.sess.queueOut(ErrAttachFirst(msg, msg.Timestamp))
+			return
+		}
 	}
 
 	// Save to DB at master topic.
